@@ -472,6 +472,14 @@ func TestC20(t *testing.T) {
 		total += n
 		r.Cases(n, 4, func(idx int) { runConcurrent(r, idx) })
 	}
+	if on("spin") {
+		n := r.N(8, 60)
+		if r.Race {
+			n = max(n, 4)
+		}
+		total += n
+		r.Cases(n, 4, func(idx int) { runSpin(r, idx) })
+	}
 	if on("poll") {
 		n := r.N(12, 100)
 		if r.Race {
